@@ -12,6 +12,7 @@ import (
 	"os"
 	"path/filepath"
 	"runtime"
+	"strings"
 	"sync"
 	"sync/atomic"
 	"testing"
@@ -237,6 +238,21 @@ func c12Sequences(u *vfUnit) {
 				var src io.Reader = bytes.NewReader(b)
 				if ci%2 == 0 {
 					src = c12Opaque{bytes.NewReader(b)}
+				}
+				if ci%5 == 3 && L > 0 {
+					// a source that delivers its bytes and then fails with an error of its own (it announces far more than it
+					// has, so the client may take its concurrent path): the count says how much was transferred, and the
+					// offset has moved by that much
+					src = &c12FailingSource{r: bytes.NewReader(b), announce: L*3 + 100000}
+					n, err := f.ReadFrom(src)
+					call = fmt.Sprintf("ReadFrom(source failing after %d bytes)@%d", L, m.off)
+					if err == nil || !strings.Contains(err.Error(), "source gave out") || n < 0 || n > int64(L) {
+						problem = fmt.Sprintf("returned (%d, %v)", n, err)
+						n = min(max(n, 0), int64(L))
+					}
+					m.writeAt(b[:n], m.off)
+					m.off += n
+					break
 				}
 				n, err := f.ReadFrom(src)
 				call = fmt.Sprintf("ReadFrom(%d bytes)@%d", L, m.off)
@@ -622,6 +638,21 @@ func c12SharedWriteTo(u *vfUnit, sc vfSrvCfg, cfgLabel, dir string, store *vfSto
 		u.Count("shared_writeto_rounds", 1)
 		f.Close()
 	}
+}
+
+// c12FailingSource delivers what its reader has and then fails with its own error; Len() announces more
+type c12FailingSource struct {
+	r        *bytes.Reader
+	announce int
+}
+
+func (s *c12FailingSource) Len() int { return s.announce }
+func (s *c12FailingSource) Read(p []byte) (int, error) {
+	n, err := s.r.Read(p)
+	if err == io.EOF {
+		return n, errors.New("source gave out")
+	}
+	return n, err
 }
 
 type c12Opaque2 struct{ w io.Writer }
